@@ -7,12 +7,18 @@ verifies the real text of the implementations those assumptions stand for, botto
     impl UpdateTrivia for TokenReference                              (real text)
     impl<T: UpdateTrivia> UpdateLeadingTrivia / UpdateTrailingTrivia  (the two blanket impls, real text)
     impl UpdateLeading/TrailingTrivia for Punctuated<T>               (real text, real loop)
-    the impls for ContainedSpan, BinOp, If, Assignment, Return, LastStmt (written in /repo through define_update_trivia!: the expansion is written
-    out mechanically, gen.MacroImpl; the macro definitions are pinned by SHA-256)
+    the impls /repo writes through define_update_trivia! and its two siblings (gen.MacroImpl writes the expansion out; the macro definitions
+    are pinned by SHA-256): ContainedSpan, BinOp, UnOp, Expression (both), Var (both), VarExpression, FunctionCall, TableConstructor, FunctionBody,
+    FunctionArgs, Call, MethodCall, Index, Suffix, Parameter, FunctionName, If, Assignment, LocalAssignment, Attribute, Return, Stmt, LastStmt
 
 and then proves, as lemmas, that the clauses the other units assume for TokenReference / ContainedSpan / BinOp (read from prelude/traits.rs at
-generation time, not copied) follow from what was verified — under three definitions that give the uninterpreted token-level line facts their
-meaning over the trivia lists (stated below as `axiom_token_lines`: definitional, class A').
+generation time, not copied) follow from what was verified — under definitions that give the uninterpreted token-level line facts their
+meaning over the trivia lists (`axiom_token_lines`: definitional).
+
+Assumed in this unit: Prefix (two four-line matches — the walk Expression -> Var / FunctionCall -> Prefix -> Expression is a cycle through trait
+implementations, and Verus wants the implementations of a trait with spec functions in an order without cycles: one of them has to stay an
+interface), the Luau nodes (TypeInfo and friends: the same kind of cycle through the blanket implementations), and that a frame — "only the
+trivia of the first / last token change" — keeps the identity of a leaf (var_id, call_id, table_id, anon_fn_id: one definitional axiom each).
 
 The traits carry one generic postcondition each (`ut_post`, `ul_post`, `utt_post`): that is an annotation of the real trait declarations
 (extracted from trivia.rs; a spec function and an `ensures` are spliced in)."""
